@@ -1430,6 +1430,19 @@ class ForAll(BinaryOperator):
         return [v.id_ for v in self.condition._unique_variables_.difference(self.left._unique_variables_)
                 if not isinstance(v.value, Literal)]
 
+    def _bind_unbound_condition_variables_(self, binding: Dict[int, HashedValue]) -> Iterable[Dict[int, HashedValue]]:
+        """
+        Complete a binding of the condition with every value of the non-universal variables it left unbound.
+        """
+        for var in self.condition._unique_variables_:
+            if var.id_ in self.condition_unique_variable_ids and var.id_ not in binding:
+                for value in var.value._evaluate_as_value_(copy(binding)):
+                    extended_binding = copy(binding)
+                    extended_binding.update(value)
+                    yield from self._bind_unbound_condition_variables_(extended_binding)
+                return
+        yield binding
+
     def _evaluate__(self, sources: Optional[Dict[int, HashedValue]] = None,
                     yield_when_false: bool = False) -> Iterable[Dict[int, HashedValue]]:
         sources = sources or {}
@@ -1447,9 +1460,12 @@ class ForAll(BinaryOperator):
             for condition_val in self.condition._evaluate__(ctx):
                 if self.condition._is_false_:
                     continue
-                # Keep only the non-universal variables from the condition bindings
-                filtered = {k: v for k, v in condition_val.items() if k in self.condition_unique_variable_ids}
-                current.append(filtered)
+                # a branch of the condition that holds without mentioning some of the other variables leaves them
+                # unbound, which means that it holds for all their values.
+                for complete_val in self._bind_unbound_condition_variables_(condition_val):
+                    # Keep only the non-universal variables from the condition bindings
+                    filtered = {k: v for k, v in complete_val.items() if k in self.condition_unique_variable_ids}
+                    current.append(filtered)
 
             # If the condition yields no satisfying bindings for this universal value, the universal fails
             if not current:
